@@ -315,7 +315,11 @@ pub fn run(tier: Tier) -> i32 {
                 (vec!["9001", "10"], ncustom.min(1)),
                 (vec!["9002", "9001"], ncustom),
             ] {
-                let mut a = s(&["check", "sanity", "-E", "9", "-c", "@TOML"]);
+                // check mode and, in rotation, the modes that print no report
+                let mode_sel = [vec!["check", "sanity"], vec!["view", "rdh"], vec!["check", "all", "its"], vec!["view", "its-readout-frames"]][(ncustom as usize + filter.len()) % 4].clone();
+                let in_view = mode_sel[0] == "view";
+                let mut a = s(&mode_sel);
+                a.extend(s(&["-E", "9", "-c", "@TOML"]));
                 a.extend(stats_args.clone());
                 if !filter.is_empty() {
                     a.push("-w".into());
@@ -326,8 +330,8 @@ pub fn run(tier: Tier) -> i32 {
                     input: Input::Bytes(clean_bytes.clone()),
                     args: a.iter().map(|x| x.replace("@TOML", &format!("@TOMLTEXT:{}", toml.replace('\n', ";")))).collect(),
                     exit: if ncustom > 0 { Exit::Code(9) } else { Exit::Code(0) },
-                    total: Some(ncustom),
-                    shown: Some(Shown::Exactly(shown)),
+                    total: if in_view { None } else { Some(ncustom) },
+                    shown: if in_view { None } else { Some(Shown::Exactly(shown)) },
                     must_not_exist: vec![],
                 });
             }
@@ -500,7 +504,7 @@ pub fn run(tier: Tier) -> i32 {
     rep.cov("code_pairs", json!(pairs));
     rep.cov("distinct_nontrivial", json!(cases.iter().filter(|c| c.exit != Exit::Code(0)).count()));
     rep.cov("exhaustive", json!(true));
-    rep.cov("rule", json!("contract table over: clean x 5 -E values x 3 modes; 1/2/21 errors x 5 -E values x 7 display options; a stream with mixed codes (E10, E11, E40, E41, E44, E444, E445, ...) x code lists incl. prefixes; a fatal framing error at every packet index x 3 -E values; {fatal framing error, truncated last payload, RDH sanity fault, clean} x 7 modes incl. the three views and data to stdout x 2 -E values with the oracle: exit = N iff an error was reported (ERROR line on stderr or errors / fatal error in the statistics file); 5 unreadable / unrecognisable inputs x 3 modes; 10 invalid option combinations (must not write st.json / out.raw); every subset of size <= 2 of an 11-atom option menu (-m, two -w lists, -e 2, -e 1000, -E 7, -S, -v 0, -f, -f -o, -c) x 2 check modes x {mixed-code stream, clean stream} and x check all its-stave on a stream with an ALPIDE lane bunch-counter mismatch, against its reference run (shown messages, exit status, statistics total); all ordered pairs of 43 codes through the display filter; every message sequence of length <= 4 over 4 codes x 31 code-filter subsets x 5 display caps through the real ErrPrinter (shown = the first N listed messages); thorough: every -E value 1..=255 x {clean, one error, one muted error, fatal framing error} and -E 0 / 256 / -1 / 1000 rejected. non-trivial = the contract demands a non-zero exit"));
+    rep.cov("rule", json!("contract table over: clean x 5 -E values x 3 modes; 1/2/21 errors x 5 -E values x 7 display options; a stream with mixed codes (E10, E11, E40, E41, E44, E444, E445, ...) x code lists incl. prefixes; a fatal framing error at every packet index x 3 -E values; {fatal framing error, truncated last payload, RDH sanity fault, clean} x 7 modes incl. the three views and data to stdout x 2 -E values with the oracle: exit = N iff an error was reported (ERROR line on stderr or errors / fatal error in the statistics file); 5 unreadable / unrecognisable inputs x 3 modes; 10 invalid option combinations (must not write st.json / out.raw); every subset of size <= 2 of an 11-atom option menu (-m, two -w lists, -e 2, -e 1000, -E 7, -S, -v 0, -f, -f -o, -c) x 2 check modes x {mixed-code stream, clean stream} and x check all its-stave on a stream with an ALPIDE lane bunch-counter mismatch, against its reference run (shown messages, exit status, statistics total); a matching / a mismatching earlier statistics file (-i) x 7 display option sets x -E 7 (exit status); all ordered pairs of 43 codes through the display filter; every message sequence of length <= 4 over 4 codes x 31 code-filter subsets x 5 display caps through the real ErrPrinter (shown = the first N listed messages); thorough: every -E value 1..=255 x {clean, one error, one muted error, fatal framing error} and -E 0 / 256 / -1 / 1000 rejected. non-trivial = the contract demands a non-zero exit"));
     rep.sample(json!({"case": cases[cases.len() / 2].label, "args": cases[cases.len() / 2].args}));
     rep.assume("with an error cap the run stops early: only 'at most N shown' and the exit status are judged, not the totals");
     rep.finish()
@@ -615,6 +619,56 @@ fn option_pairs(rep: &mut Reporter, mixed: &[u8], clean: &[u8], stave_faulty: &[
                     description: format!("`{}`: {} messages from a file, {} from stdin (exit {:?})", mode.join(" "), base_msgs.len(), s_msgs.len(), sr.status),
                     replay: json!({"mode": mode, "input": ii}),
                 });
+            }
+        }
+    }
+    // comparison with an earlier statistics file (-i) crossed with the display / exit options: a matching file changes
+    // nothing, a file that differs in one counter makes the run fail with the configured exit status, muted or not
+    {
+        let display: Vec<Vec<String>> = vec![vec![], s(&["-m"]), s(&["-w", "10"]), s(&["-e", "1000"]), s(&["-v", "0"]), s(&["-m", "-w", "10"]), s(&["-m", "-v", "0"])];
+        let mut jobs: Vec<(usize, Vec<String>, Vec<String>, bool)> = Vec::new();
+        for ii in 0..2usize {
+            for mode in &modes {
+                for d in &display {
+                    for mismatch in [false, true] {
+                        jobs.push((ii, mode.clone(), d.clone(), mismatch));
+                    }
+                }
+            }
+        }
+        let jres = par_map(&jobs, |_, (ii, mode, d, mismatch)| {
+            let scratch = Scratch::new("c16i");
+            let input = scratch.file("in.raw", inputs[*ii]);
+            let refp = scratch.join("ref.json");
+            let mut a = vec![input.display().to_string()];
+            a.extend(mode.iter().cloned());
+            a.extend(s(&["-S", &refp.display().to_string(), "-D", "json"]));
+            let r0 = Run::new(&a).cwd(&scratch.path).run();
+            let Ok(txt) = std::fs::read_to_string(&refp) else { return Some(("no-reference-stats".to_string(), r0.stderr_str())) };
+            let mut v: Value = serde_json::from_str(&txt).unwrap_or(Value::Null);
+            if *mismatch {
+                let n = v["rdh_stats"]["rdhs_seen"].as_u64().unwrap_or(0);
+                v["rdh_stats"]["rdhs_seen"] = json!(n + 1);
+            }
+            let inp = scratch.file("cmp.json", serde_json::to_string_pretty(&v).unwrap().as_bytes());
+            let base_errors = split_cli_errors(&r0.stderr_str()).iter().any(|m| m.contains("[E"));
+            let mut b = vec![input.display().to_string()];
+            b.extend(mode.iter().cloned());
+            b.extend(d.iter().cloned());
+            b.extend(s(&["-i", &inp.display().to_string(), "-E", "7"]));
+            let r = Run::new(&b).cwd(&scratch.path).run();
+            if r.crashed() {
+                return Some(("crash".to_string(), format!("signal {:?}", r.signal)));
+            }
+            let want = if *mismatch || base_errors { 7 } else { 0 };
+            if r.status != Some(want) {
+                return Some((format!("stats-file-{}", if *mismatch { "mismatch-not-failing" } else { "match-failing" }), format!("exit status {:?}, expected {want} (the statistics file {}; the data itself {} errors)", r.status, if *mismatch { "differs in rdhs_seen" } else { "matches" }, if base_errors { "has" } else { "has no" })));
+            }
+            None
+        });
+        for ((ii, mode, d, _), r) in jobs.iter().zip(jres.iter()) {
+            if let Some((sig, desc)) = r {
+                rep.violation(Violation { signature: format!("option-pairs:{sig}:{}", d.join("").replace(' ', "")), description: format!("{desc} [`{}` {:?} -i <file> -E 7 on input {ii}]", mode.join(" "), d), replay: json!({"mode": mode, "display": d, "input": ii}) });
             }
         }
     }
